@@ -476,3 +476,5 @@ def unit_counter_taint(twin=False):
     r.assumptions += ["every callee is an opaque event (a callee that itself reads `simulation` is outside this unit: the existing text scan C04.engine.no_decision_keyed_on... covers comparisons with constants)",
                       "a value that went through memory across a havocked loop is not tracked; formatted text (snprintf / sformatf / operator<<) is allowed to carry the counter (descriptions `... after simulation N.`)"]
     return r
+
+from props.c04_ext2 import UNITS as _U2; UNITS = UNITS + _U2
